@@ -86,6 +86,24 @@ serves the 464-byte IPv4 and the 512-byte IPv6 `cali_tc_state`; `mirror-size` (s
 theorem go_weak_rows_v4_partial : Gen.V4.goWeakRows.all (rowOk Gen.V4.structs) = true := Gen.V4.go_weak_rows_ok
 theorem go_weak_rows_v6_partial : Gen.V6.goWeakRows.all (rowOk Gen.V6.structs) = true := Gen.V6.go_weak_rows_ok
 
+/-- The policy-program builder's view of `struct cali_tc_state`, taken from REAL programs (the real
+`polprog.Builder` run on single-match rules: Src/Dst/NotSrc/NotDst CIDRs of every prefix-length class
+— IPv6: /0 … /128 around every 32-bit boundary —, IP sets, ports, protocol; workload tier and host
+pre-DNAT tier; both IP versions; instructions decoded, every access relative to the state pointer
+collected): every access lies inside the member the builder annotates it with … -/
+theorem builder_accesses_inside_v4 : Gen.V4.builderAccesses.all (accessInside Gen.V4.structs) = true :=
+  Gen.V4.builder_accesses_inside
+theorem builder_accesses_inside_v6 : Gen.V6.builderAccesses.all (accessInside Gen.V6.structs) = true :=
+  Gen.V6.builder_accesses_inside
+
+/-- … and every match reads exactly the bytes of the member its leg denotes: word `k` of an address at
+`field + 4k` for exactly the words the prefix covers, the whole address + port + protocol for an IP
+set, the member itself for a port / protocol match (`expectedMatch`). -/
+theorem builder_matches_ok_v4 : Gen.V4.builderMatches.all (matchOk false Gen.V4.structs) = true :=
+  Gen.V4.builder_matches_ok
+theorem builder_matches_ok_v6 : Gen.V6.builderMatches.all (matchOk true Gen.V6.structs) = true :=
+  Gen.V6.builder_matches_ok
+
 /-- The layout algorithm agrees with clang 14 (`-target bpf -fdump-record-layouts`) on every record
 of the real headers, both builds: member offsets (bits), sizeof, alignof. -/
 theorem layout_eq_clang_v4 : Gen.V4.clangLayouts.all (fun e =>
@@ -123,6 +141,12 @@ example : Gen.V4.calico_ct_value.size = 88 ∧ Gen.V6.calico_ct_value.size = 128
 example : Gen.V6.cali_tc_state.size = 512 ∧ Gen.V4.cali_tc_state.size = 464 := by decide +kernel
 example : findPath Gen.V4.structs "cali_tc_state" "pol_rc" = some (8 * 92, 32) := by decide +kernel
 example : findPath Gen.V6.structs "calico_ct_leg" "workload" = some (134, 1) := by decide +kernel
+example : Gen.V6.builderMatches.length > 40 ∧ Gen.V6.builderAccesses.length > 20 := by decide +kernel
+example : expectedMatch true Gen.V6.structs ⟨"cidr", "ip_src", 128, []⟩ = some [(8, 32), (12, 32), (16, 32), (20, 32)] := by
+  decide +kernel
+/-- the seeded defect's access pattern (words at +0,+4,+12,+24) is rejected -/
+example : matchOk true Gen.V6.structs ⟨"cidr", "ip_src", 128, [(8, 32), (12, 32), (20, 32), (32, 32)]⟩ = false ∧
+    accessInside Gen.V6.structs ("ip_src", 32, 32) = false := by decide +kernel
 example : Gen.V4.goRows.length > 100 ∧ Gen.V6.goRows.length > 60 ∧ Gen.V4.goWeakRows.length < 30 := by decide +kernel
 /-- a packed record really is laid out without padding: `saddr` of `calico_nat_key` at byte 11. -/
 example : findPath Gen.V4.structs "calico_nat_key" "saddr" = some (88, 32) := by decide +kernel
